@@ -40,6 +40,7 @@ type Layout struct {
 	QuoteNames bool   `json:"quoteNames"` // rule names in quotes
 	Comments   string `json:"comments"`   // "" | "eol" | "own-line" | "block"
 	Indent     string `json:"indent"`
+	Glue       bool   `json:"glue"` // no blank at all between an element and its annotation (`1// {min: 1}`)
 }
 
 var Canonical = Layout{Pad: "", NL: "\n", Ann: "inline", Indent: "\t"}
@@ -47,6 +48,9 @@ var Canonical = Layout{Pad: "", NL: "\n", Ann: "inline", Indent: "\t"}
 func (l Layout) Name() string {
 	pad := map[string]string{"": "pad0", " ": "pad1", "   ": "pad3", "\t": "tab"}[l.Pad]
 	nl := map[string]string{"\n": "lf", "\r\n": "crlf", "\r": "cr"}[l.NL]
+	if l.Glue {
+		pad += "+glued"
+	}
 	s := pad + "," + nl + "," + l.Ann
 	if l.QuoteNames {
 		s += ",quoted"
@@ -149,6 +153,9 @@ func (p *printer) node(n *SNode, indent, prefix, suffix string) {
 	withAnn := func(s string) string {
 		if ann == "" {
 			return s
+		}
+		if l.Glue {
+			return s + ann
 		}
 		return s + " " + l.Pad + ann
 	}
